@@ -6,7 +6,18 @@
  * vector is filled with 0xBE when the allocator log says it exists.
  * find and compare lines print the library's result followed by what libc
  * (strchr/strstr/strcmp, wcschr/wcsstr/wcscmp) says on a private copy of the
- * characters [0, size] taken before the call. */
+ * characters [0, size] taken before the call.
+ *
+ * append_str_n s n c*: the library is given the literal and the count n.  A
+ * count beyond the literal is only meaningful when the library aborts before
+ * reading the source (growth that cannot be satisfied): counts that stay
+ * inside the driver's literal buffer or that the allocation wrapper can never
+ * satisfy (>= 2^32 characters) are passed on, and "precond" is printed if the
+ * call returns; the rest is "precond" without a call.
+ * data s: "1" when cstl_(w)string_data is NULL, else "0 <block> <offset>"
+ * (ha_locate; -1 when the pointer is not inside a live block) followed, when
+ * the vector holds elements, by <data[size]==NUL> (-1: size+1 characters are
+ * not readable there) and the characters data[0 .. size). */
 #include "hcommon.h"
 #include "halloc.h"
 #include "cstl/string.h"
@@ -121,7 +132,7 @@ static void * copy_of(int i)
 }
 static int sgn(int x) { return (x > 0) - (x < 0); }
 
-static char outb[256];
+static char outb[24 * (MAXPRINT + 8)];
 
 static void finish_line(void)
 {
@@ -236,6 +247,40 @@ static void run_case(const struct h_case * c)
             ha_active = 0;
             snprintf(outb, sizeof(outb), " %zu %lld",
                      (size_t)((uintptr_t)p - (uintptr_t)vof(a)->elem.base), chr_at(p, 0));
+        } else if (h_weq(l, 0, "at_const")) {
+            const void * p;
+            ha_active = 1;
+            p = wide ? (const void *)cstl_wstring_at_const(&ws[a], x) : (const void *)cstl_string_at_const(&ns[a], x);
+            ha_active = 0;
+            snprintf(outb, sizeof(outb), " %zu %lld",
+                     (size_t)((uintptr_t)p - (uintptr_t)vof(a)->elem.base), chr_at(p, 0));
+        } else if (h_weq(l, 0, "append_str_n")) {
+            read_lit(l, 3);
+            if (x > litlen && x > MAXLIT && x < ((size_t)1 << 32)) { printf("precond\n"); return; }
+            ha_active = 1;
+            if (wide) cstl_wstring_append_str_n(&ws[a], wlit, x); else cstl_string_append_str_n(&ns[a], nlit, x);
+            ha_active = 0;
+            if (x > litlen) { printf("precond\n"); return; }
+        } else if (h_weq(l, 0, "data")) {
+            const void * p;
+            size_t sz, k, off = 0;
+            int b, n = 0;
+            ha_active = 1;
+            p = wide ? (const void *)cstl_wstring_data(&ws[a]) : (const void *)cstl_string_data(&ns[a]);
+            ha_active = 0;
+            if (p == NULL) snprintf(outb, sizeof(outb), " 1");
+            else {
+                b = ha_locate(p, &off);
+                n = snprintf(outb, sizeof(outb), " 0 %d %zu", b, b < 0 ? (size_t)0 : off);
+                sz = size_of(a);
+                if (vof(a)->count > 0) {
+                    if (sz < SIZE_MAX && !is_static_nul(p) && readable(p, sz + 1)) {
+                        n += snprintf(outb + n, sizeof(outb) - n, " %d", chr_at(p, sz) == 0);
+                        for (k = 0; k < sz && k < MAXPRINT && n < (int)sizeof(outb) - 24; k++)
+                            n += snprintf(outb + n, sizeof(outb) - n, " %lld", chr_at(p, k));
+                    } else n += snprintf(outb + n, sizeof(outb) - n, " -1");
+                }
+            }
         } else if (h_weq(l, 0, "find_ch")) {
             void * cp = copy_of(a);
             size_t sz = size_of(a), pos = y;
